@@ -52,6 +52,11 @@ pub struct Mon {
     drops_since_clear: u64,
     /// on_evict callbacks for victims and swept entries (not the clear/close drain) since the last clear
     evictions_since_clear: i64,
+    /// C02: per key, the values whose insert had returned true; per in-flight remove, the values of
+    /// its key written before the remove began; values that a completed remove must have taken out
+    written_done: HashMap<u64, Vec<u64>>,
+    remove_kills: HashMap<usize, Vec<u64>>,
+    dead_values: HashSet<u64>,
     panics_seen: u64,
     any_error: bool,
     closed_ok: bool,
@@ -81,7 +86,7 @@ impl Mon {
             case, cfg, flags, item_size: item_size as i64,
             spec: HashMap::new(), val_key: HashMap::new(), val_cost: HashMap::new(), accepted: HashSet::new(),
             cb_count: HashMap::new(), overwritten: HashSet::new(), before_clear: HashSet::new(), cleared_ok: HashMap::new(), clear_epoch: 0, start_epoch: HashMap::new(), clear_on_closed: HashSet::new(), at_clear_call: HashMap::new(), started_after_close: HashSet::new(),
-            cur_op: HashMap::new(), sent_by: HashMap::new(), after_wait: Vec::new(), lookups_since_clear: 0, ring_carry: 0, drops_since_clear: 0, evictions_since_clear: 0, panics_seen: crate::sched::PANICS.load(std::sync::atomic::Ordering::SeqCst),
+            cur_op: HashMap::new(), sent_by: HashMap::new(), after_wait: Vec::new(), lookups_since_clear: 0, ring_carry: 0, drops_since_clear: 0, evictions_since_clear: 0, written_done: HashMap::new(), remove_kills: HashMap::new(), dead_values: HashSet::new(), panics_seen: crate::sched::PANICS.load(std::sync::atomic::Ordering::SeqCst),
             any_error: false, closed_ok: false, clear_returned_clean: false, straddled: false, inserted_after_clear: false, hits: 0,
             prev: None, evicted_once: HashSet::new(), conf_seen: HashMap::new(), in_tick: false, tick_time: 0,
         }
@@ -128,6 +133,10 @@ impl Mon {
             Op::GetMutWrite { idx, conf, val } => {
                 self.val_key.insert(*val, (*idx, *conf));
                 self.inserted_after_clear = true;
+            }
+            Op::Remove { idx, .. } => {
+                let v = self.written_done.get(idx).cloned().unwrap_or_default();
+                self.remove_kills.insert(a, v);
             }
             Op::Clear | Op::Close => {
                 let acc: Vec<u64> = self.accepted.iter().copied().collect();
@@ -182,6 +191,7 @@ impl Mon {
             Op::Insert { idx, conf, val, ttl_ns, only, .. } => {
                 if res == "true" {
                     self.accepted.insert(*val);
+                    self.written_done.entry(*idx).or_default().push(*val);
                     self.sent_by.entry(a).or_default().push(*val);
                     self.inserted_after_clear = true;
                     if self.flags.exact_map {
@@ -305,6 +315,12 @@ impl Mon {
                 if self.flags.exact_map && res == "ok" {
                     self.spec.remove(idx);
                 }
+                // C02: what had been written under this key before the remove() began must be gone once
+                // the remove has taken effect (checked at the next quiescent point)
+                let kills = self.remove_kills.remove(&a).unwrap_or_default();
+                if res == "ok" && !after.closed && !self.closed_ok {
+                    self.dead_values.extend(kills);
+                }
             }
             Op::Wait => {
                 if res == "ok" && !after.closed {
@@ -398,6 +414,14 @@ impl Mon {
             let handed = self.cb_count.contains_key(&v) || self.overwritten.contains(&v) || self.before_clear.contains(&v);
             if !resident && !handed {
                 self.hit("C10", format!("wait() returned Ok but value {} sent earlier by the same client is neither resident nor handed back", v));
+            }
+        }
+        // C02: nothing written before a completed remove(k) is resident any more
+        if !self.flags.collisions {
+            for e in &s.store {
+                if self.dead_values.contains(&e.value) {
+                    self.hit("C02", format!("key {} still holds value {} written before a remove({}) that completed", e.index, e.value, e.index));
+                }
             }
         }
         // C01 at cache level: the sum of charges
